@@ -162,10 +162,10 @@ def _run_stmt(st: ast.stmt, p: _Path, done: list[_Path], fq: str) -> list[_Path]
         return [p]
     if isinstance(st, ast.Expr):
         c = st.value
-        if isinstance(c, ast.Call) and isinstance(c.func, ast.Attribute) and c.func.attr == "add" and isinstance(c.func.value, ast.Subscript) and c.args:
-            if _ev(c.args[0], p.env) == NEXT and p.seen_check:
-                p.advanced = True
-                p.trace.append(f"line {st.lineno}: `{short(st, 60)}` adds the advanced item")
+        # `table[...].add(next_state)`, or any helper that is handed the advanced item (an extracted `self._enter(table, k, next_state)`)
+        if isinstance(c, ast.Call) and p.seen_check and any(_ev(a, p.env) == NEXT for a in list(c.args) + [k.value for k in c.keywords]):
+            p.advanced = True
+            p.trace.append(f"line {st.lineno}: `{short(st, 60)}` hands on the advanced item")
         return [p]
     if isinstance(st, ast.If):
         v = _ev(st.test, p.env)
